@@ -24,7 +24,12 @@ def call_impl(case):
         kw["fixed_points_indices_in_x"] = list(case["fixed"]) if case.get("fixed_as_list") else np.array(case["fixed"])
     if case.get("as_list"):
         return f(list(case["x"]), list(case["y"]), list(case["xr"]), list(case["yr"]), **kw)
-    return f(np.array(case["x"], dtype=float), np.array(case["y"], dtype=float), np.array(case["xr"], dtype=float),
+    yd = case.get("y_dtype", "float64")
+    if yd == "int-list":          # "every finite y": integer-typed input is a legal way to write it
+        yarg = [int(v) for v in case["y"]]
+    else:
+        yarg = np.array(case["y"], dtype=yd)
+    return f(np.array(case["x"], dtype=float), yarg, np.array(case["xr"], dtype=float),
              np.array(case["yr"], dtype=float), **kw)
 
 
@@ -50,6 +55,12 @@ def check_match(case):
     _, fidx, ridx = sel
     x = [float(v) for v in case["x"]]
     y = [float(v) for v in case["y"]]
+    ysc = case.get("y_scale", 1.0)
+    if ysc != 1.0:
+        # same shape at another magnitude: a large baseline (small relative variation) or a tiny scale
+        y = [v + ysc for v in y] if ysc > 1 else [v * ysc for v in y]
+        case = dict(case, y=y, y_dtype="float64", y_scale=1.0,
+                    yr=[float(v) + ysc for v in case["yr"]] if ysc > 1 else [float(v) * ysc for v in case["yr"]])
     xr = [float(v) for v in case["xr"]]
     yr = [float(v) for v in case["yr"]]
     alpha = case["alpha"]
@@ -68,7 +79,9 @@ def check_match(case):
         return [fail("C01:shape", {"shape": z.shape}, key)], ("shape",)
     zf = [float(v) for v in z]
     width = x[-1] - x[0]
-    scale = max(1.0, max(abs(v) for v in y), max(abs(v) for v in yr) * max(1.0, abs(xr[-1] - xr[0]))) * max(1.0, width)
+    # tolerance relative to the magnitude of the data (integrals of y and of the reference)
+    mag = max(max(abs(v) for v in y), max(abs(v) for v in yr), 1e-300)
+    scale = mag * max(width, abs(xr[-1] - xr[0]))
     tol = 1e-9 * scale
     targets = RM.reference_targets(xr, yr, case["rr"], ridx)
     # C01: every interval, and the total
@@ -88,7 +101,7 @@ def check_match(case):
     if zf[:lo] != y[:lo] or zf[hi + 1:] != y[hi + 1:]:
         fails.append(fail("C03:outside-span-changed", {"fixed": fidx, "z": zf, "y": y}, key))
     for i in fidx:
-        if abs(zf[i] - y[i]) > 1e-12 * scale:
+        if abs(zf[i] - y[i]) > 1e-12 * max(mag, abs(y[i])):
             fails.append(fail("C03:fixed-point-moved", {"index": i, "z": zf[i], "y": y[i]}, key))
             break
     # C03 (ii): displacement profile, one sign, proportional to the documented weights
@@ -97,7 +110,7 @@ def check_match(case):
         w = [1 - (2 * abs(c_ - v) / wd_) ** alpha for v in x[a:b + 1]]
         d = [zf[j] - y[j] for j in range(a, b + 1)]
         md = max(abs(v) for v in d)
-        eps = 1e-12 * scale + 1e-9 * md
+        eps = 1e-12 * mag + 1e-9 * md
         if any(v > eps for v in d) and any(v < -eps for v in d):
             fails.append(fail("C03:mixed-direction", {"window": [a, b], "d": d}, key))
             break
@@ -111,7 +124,7 @@ def check_match(case):
             break
     # C03 (iii): idempotence
     if not fails:
-        c2 = dict(case)
+        c2 = dict(case, y_dtype="float64")
         c2["y"] = zf
         try:
             z2 = [float(v) for v in call_impl(c2)]
@@ -195,10 +208,11 @@ def make_selection_body(grids, L, rmax, images, alphas, prefix):
                     yr = [((3 * i + n_ok) % 5) - 1 for i in range(r)]
                     _judge(ctx, prefix=prefix, case={"x": x, "y": list(yv), "xr": xr, "yr": yr, "mode": m, "strategy": strat,
                                  "fixed": fixed, "tr": tr, "rr": rr, "alpha": al,
-                                 "fixed_as_list": bool(n_ok % 2)})
+                                 "fixed_as_list": bool(n_ok % 2),
+                                 "y_dtype": ("float64", "int64", "int-list")[(n_ok // 3) % 3]})
         ctx.note("raw_cases", n_raw)
         ctx.note("admissible_cases", n_ok)
-        if k == 5 and mode == "closest" and iname == "id":
+        if k == 5 and mode == "closest" and iname == "x-3":
             ctx.sample({"x": x, "mode": mode, "reference_tuples": "all increasing %d..%d-tuples of the half lattice" % (2, rmax)})
     return body
 
@@ -223,7 +237,9 @@ def make_value_body(grids, alphas, prefix):
                     for yr in ([1] * r, list(range(r)), [(-2) ** i for i in range(r)]):
                         n += 1
                         _judge(ctx, prefix=prefix, case={"x": x, "y": list(yv), "xr": xr, "yr": yr, "mode": "search", "strategy": "closest",
-                                     "fixed": None, "tr": tr, "rr": rr, "alpha": al})
+                                     "fixed": None, "tr": tr, "rr": rr, "alpha": al,
+                                     "y_dtype": ("float64", "int64", "int-list")[n % 3],
+                                     "y_scale": (1.0, 1.0, 1.0, 2.5e6, 1e-9)[n % 5]})
         if k == 6 and al == 2 and off == 0.0:
             ctx.sample({"x": x, "rules": [tr, rr], "alpha": al, "fixed_subsets": "all with gaps >= 2", "cases": n})
     return body
